@@ -199,6 +199,15 @@ class FieldData:
                "refer to the line:\n"+
                "\n".join([str(g) for g in self._refs.get("paths", []) +
                                            self._refs.get("sets", [])]))
+           if (value is None or gfapy.is_placeholder(value)) and \
+               fieldname in self.positional_fieldnames and \
+               self._field_datatype(fieldname) != "optional_identifier_gfa2":
+             # (at vlevel 0 the value is not validated: the line would be
+             # registered as if it had no name, and could not be found)
+             raise gfapy.FormatError(
+               "Line: {}\n".format(str(self))+
+               "The identifier of the line cannot be removed "+
+               "(it is not optional)")
            if value is not None and not gfapy.is_placeholder(value) and \
                not isinstance(value, str):
              # (at vlevel 0 the value is not validated: the line would be
